@@ -31,10 +31,29 @@ pub fn check_mt(c: &MtCase) -> CaseResult {
         "threads": c.threads.iter().map(|w| serde_json::json!({"blocks": w.blocks, "free_mode": w.free_mode, "free_seed": w.free_seed})).collect::<Vec<_>>(),
         "rounds": c.rounds,
         "verify": true,
+        "bound": 4 * (c.threads.iter().map(round_total).sum::<usize>() + (1 << 20)),
     });
     let mut child = Command::new(&path).stdin(Stdio::piped()).stdout(Stdio::piped()).stderr(Stdio::piped()).spawn().map_err(|e| Failure::new("harness|spawn galloc", e.to_string()))?;
     child.stdin.take().unwrap().write_all(body.to_string().as_bytes()).unwrap();
+    // watchdog: a run that takes minutes is inconclusive, never a violation
+    let pid = child.id() as i32;
+    let done = std::sync::Arc::new(std::sync::atomic::AtomicBool::new(false));
+    let d2 = done.clone();
+    let killer = std::thread::spawn(move || {
+        for _ in 0..1800 {
+            std::thread::sleep(std::time::Duration::from_millis(100));
+            if d2.load(std::sync::atomic::Ordering::SeqCst) {
+                return false;
+            }
+        }
+        unsafe { libc::kill(pid, libc::SIGKILL) };
+        true
+    });
     let out = child.wait_with_output().map_err(|e| Failure::new("harness|wait galloc", e.to_string()))?;
+    done.store(true, std::sync::atomic::Ordering::SeqCst);
+    if killer.join().unwrap_or(false) {
+        return Err(Failure::new("harness|galloc-timeout", "galloc exceeded 180 s and was killed".to_string()));
+    }
     if !out.status.success() {
         use std::os::unix::process::ExitStatusExt;
         let err = String::from_utf8_lossy(&out.stderr);
@@ -74,5 +93,11 @@ pub fn run(ctx: &Ctx) {
         let rounds = want.min((budget / ops).max(8));
         MtCase { threads, rounds }
     });
-    ctx.run_prop_opts("global-mt", ctx.cases(12, 400), 24, strat, check_mt);
+    ctx.run_prop_opts("global-mt", ctx.cases(12, 400), 24, strat, |c| match check_mt(c) {
+        Err(f) if f.sig == "harness|galloc-timeout" => {
+            ctx.inconclusive();
+            Ok(CaseReport::new())
+        }
+        r => r,
+    });
 }
